@@ -81,6 +81,7 @@ const (
 	idB       = 0x0000b001
 	idC       = 0x0000c001
 	idD       = 0x0000d001
+	idE       = 0x0000e001 // S4: child of B (two hops behind A), with a task waiting in A's queue
 	idUnknown = 0x0000eeee
 
 	magicDemon      = 0xDEADBEEF
@@ -114,6 +115,8 @@ func keyIndex(id uint32) byte {
 		return 3
 	case idD:
 		return 4
+	case idE:
+		return 5
 	}
 	return 0
 }
